@@ -452,7 +452,9 @@ func CalculateBestCacheSize(argb []uint32, quality int, refs *BackwardRefs, cach
 		ls := histogramNumCodes(i)
 		histoSlab[i].Literal = litSlab[litOff : litOff+ls : litOff+ls]
 		histoSlab[i].paletteCodeBits = i
-		histoSlab[i].resetStats()
+		// The slab may be reused from an earlier encode: zero all frequency
+		// arrays (Red/Blue/Alpha/Distance), not only the cached stats.
+		histoSlab[i].Clear()
 		histos[i] = &histoSlab[i]
 		litOff += ls
 	}
